@@ -64,24 +64,82 @@ func (g *gen) bagOf(c *boc.Cell) ([]byte, error) {
 	return c.ToBoc()
 }
 
-func (g *gen) record(src, cls string, c *boc.Cell) error {
+func (g *gen) record(src, cls string, c *boc.Cell, in ev.M) error {
 	bag, err := g.bagOf(c)
 	if err != nil {
 		return fmt.Errorf("%s: cannot serialise: %w", src, err)
 	}
-	return g.recordBag(src, cls, hex.EncodeToString(bag))
-}
-
-func (g *gen) recordBag(src, cls, bagHex string) error {
+	bagHex := hex.EncodeToString(bag)
 	g.w.Emit(ev.M{"k": "Begin", "i": g.n, "src": src, "boc": bagHex})
 	r, err := Decode(bagHex)
 	if err != nil {
 		return fmt.Errorf("%s: %w", src, err)
 	}
 	r["k"], r["src"], r["cls"], r["boc"] = "Dec", src, cls, bagHex
+	if in != nil {
+		r["in"] = in // what was handed to the library's encoder
+	}
 	g.w.Emit(r)
 	g.n++
 	return nil
+}
+
+func (g *gen) recordText(src string, c *boc.Cell, in string) error {
+	bag, err := g.bagOf(c)
+	if err != nil {
+		return fmt.Errorf("%s: cannot serialise: %w", src, err)
+	}
+	bagHex := hex.EncodeToString(bag)
+	g.w.Emit(ev.M{"k": "Begin", "i": g.n, "src": src, "boc": bagHex})
+	r, err := DecodeText(bagHex)
+	if err != nil {
+		return fmt.Errorf("%s: %w", src, err)
+	}
+	r["k"], r["src"], r["boc"], r["in"] = "Text", src, bagHex, in
+	g.w.Emit(r)
+	g.n++
+	return nil
+}
+
+// text records tlb.Text: strings through the library's encoder (the specification must read the input back from
+// the cells) and hand-built chains through its decoder.
+func (g *gen) text() error {
+	if g.rng.Intn(2) == 0 {
+		var p []byte
+		switch g.rng.Intn(4) {
+		case 0:
+			p = g.bytes(g.payloadLen(true), false) // mostly not UTF-8
+		case 1:
+			for n := g.payloadLen(false); len(p) < n; {
+				p = append(p, []byte(string(rune(0x80+g.rng.Intn(0x2000))))...)
+			}
+		default:
+			p = g.bytes(g.payloadLen(true), true)
+		}
+		c := boc.NewCell()
+		if err := tlb.Marshal(c, tlb.Text(p)); err != nil {
+			return fmt.Errorf("tlb.Marshal(Text): %w", err)
+		}
+		return g.recordText("lib", c, hex.EncodeToString(p))
+	}
+	bits := bitsOf(g.bytes(g.payloadLen(false), g.rng.Intn(3) != 0))
+	if g.rng.Intn(6) == 0 {
+		bits += "0110"[:1+g.rng.Intn(4)]
+	}
+	n := snake("", bits, randCuts(g.rng, len(bits), 1023, g.rng.Intn(4)))
+	if g.rng.Intn(8) == 0 {
+		for _, c := range n.all() {
+			if len(c.refs) == 1 {
+				c.refs = append(c.refs, &node{bits: "0101"})
+				break
+			}
+		}
+	}
+	c, err := n.cell()
+	if err != nil {
+		return err
+	}
+	return g.recordText("hand", c, "-")
 }
 
 // ---------------------------------------------------------------- library encoders
@@ -95,10 +153,18 @@ func snakeData(b []byte) tlb.SnakeData {
 func (g *gen) lib() error {
 	var fc tlb.FullContent
 	cls := "lib:off"
+	inF := map[string]string{}
+	for _, a := range Attrs {
+		inF[a] = ""
+	}
+	in := ev.M{"layout": "offchain", "url": "", "fields": inF}
 	if g.rng.Intn(3) == 0 {
 		fc.SumType = "Offchain"
-		fc.Offchain.Uri = snakeData(g.bytes(g.payloadLen(false), g.rng.Intn(4) != 0))
+		u := g.bytes(g.payloadLen(false), g.rng.Intn(4) != 0)
+		fc.Offchain.Uri = snakeData(u)
+		in["url"] = hex.EncodeToString(u)
 	} else {
+		in["layout"] = "onchain"
 		fc.SumType = "Onchain"
 		cls = "lib:on"
 		var keys []tlb.Bits256
@@ -124,11 +190,16 @@ func (g *gen) lib() error {
 			}
 			var cd tlb.ContentData
 			cd.SumType = "Snake"
-			cd.Snake.Data = snakeData(g.bytes(g.payloadLen(a == "image_data"), a != "image_data" && g.rng.Intn(5) != 0))
+			p := g.bytes(g.payloadLen(a == "image_data"), a != "image_data" && g.rng.Intn(5) != 0)
+			cd.Snake.Data = snakeData(p)
+			if _, known := inF[a]; known {
+				inF[a] = hex.EncodeToString(p)
+			}
 			keys = append(keys, k)
 			vals = append(vals, tlb.Ref[tlb.ContentData]{Value: cd})
 			if a == "uri" {
 				cls = "lib:semi"
+				in["layout"] = "semichain"
 			}
 		}
 		fc.Onchain.Data = tlb.NewHashmapE(keys, vals)
@@ -137,7 +208,7 @@ func (g *gen) lib() error {
 	if err := tlb.Marshal(c, fc); err != nil {
 		return fmt.Errorf("tlb.Marshal(FullContent): %w", err)
 	}
-	return g.record("lib", cls, c)
+	return g.record("lib", cls, c, in)
 }
 
 // ---------------------------------------------------------------- foreign encodings
@@ -286,7 +357,7 @@ func (g *gen) hand() error {
 	if err != nil {
 		return err
 	}
-	return g.record("hand", b.cls, c)
+	return g.record("hand", b.cls, c, nil)
 }
 
 // ---------------------------------------------------------------- mutations
@@ -398,13 +469,13 @@ func (g *gen) mut() error {
 		if err != nil {
 			continue
 		}
-		return g.record("mut", "mut:"+what, c)
+		return g.record("mut", "mut:"+what, c, nil)
 	}
 	c, err := b.root.cell()
 	if err != nil {
 		return err
 	}
-	return g.record("mut", "mut:none", c)
+	return g.record("mut", "mut:none", c, nil)
 }
 
 // ---------------------------------------------------------------- Merge
@@ -451,14 +522,14 @@ func (g *gen) merge() error {
 func Drive(w *ev.Writer, o Opts) error {
 	w.Sync = true
 	g := &gen{rng: rand.New(rand.NewSource(o.Seed*1000003 + int64(o.Shard)*7919 + 17)), w: w}
-	nLib, nHand, nMut, nMerge := 40, 130, 90, 60
+	nLib, nHand, nMut, nMerge, nText := 40, 130, 90, 60, 40
 	if o.Tier == "thorough" {
-		nLib, nHand, nMut, nMerge = 400, 1500, 1100, 400
+		nLib, nHand, nMut, nMerge, nText = 800, 3500, 2500, 600, 800
 	}
 	for _, job := range []struct {
 		n int
 		f func() error
-	}{{nLib, g.lib}, {nHand, g.hand}, {nMut, g.mut}, {nMerge, g.merge}} {
+	}{{nLib, g.lib}, {nHand, g.hand}, {nMut, g.mut}, {nMerge, g.merge}, {nText, g.text}} {
 		for i := 0; i < job.n; i++ {
 			if err := job.f(); err != nil {
 				return err
